@@ -5,12 +5,12 @@ V = os.path.dirname(os.path.dirname(os.path.abspath(__file__)))
 
 CHECKS = {
  "C01": dict(
-   text="Bounded-exhaustive exploration of the real write path: every (key, degree 1..15 x quality, dictionary look-up, bass) chord (quick: the two faces no-bass and bass x {'', m7}; thorough: the full 8.98 M product), the key-in-force state graph (29 states x 58 operations, BFS to fixpoint, every edge replayed on the implementation), all key-change histories of length <= 4 over {chord, rest} x {-, Cb, F#m, A} with and without --key, and a CLI slice for the glue in package main; struck pitches decoded by an independent SMF reader and compared chord by chord with 60+tonic+degree(+tone | +bass-12).",
+   text="Bounded-exhaustive exploration of the real write path: every (key, degree 1..15 x quality, dictionary look-up, bass) chord (quick: the two faces no-bass and bass x {'', m7}; thorough: the full 8.98 M product), the key-in-force state graph (29 states x 58 operations, BFS to fixpoint, every edge replayed on the implementation), all key-change histories of length <= 4/5 over {chord, rest} x {-, Cb, F#m, A} with and without --key, every ordered pair of look-ups as [A B A B], a CLI slice for the glue in package main; plus long documents: periodic pieces of 130 and 300 (thorough: 1100) instances with exactly one deviation (key change, key repeated, tempo, meter, dynamic, text, 700-beat rest, 1/64 value, other symbol / degree / bass, two values, chord<->rest) at every position (130) or every counting boundary 63..257 (300); struck pitches decoded by an independent SMF reader and compared chord by chord with 60+tonic+degree(+tone | +bass-12).",
    note="Trusted: ref/theory, ref/dict (own expansion of chord/*.yml on disk, parent first), ref/smf, yaml.v3. Verdict relative to the alphabets; unbounded only for the key-in-force graph under the abstraction that the key in force is the only carried state that pitches depend on.",
    technique="bounded-exhaustive enumeration of chords and key-change histories + explicit-state BFS of the key-in-force machine on the real code vs. reference model",
    ref="DESIGN.md §4 C01"),
  "C02": dict(
-   text="All histories up to length 3 (thorough: 4-5 on sub-alphabets) over {chord, chord, rest} x 24 duration lists incl. non-unit numerators, denominators not dividing 960, exact half-tick ties and several fractions per instance, on 1 and 3 tracks, through the real write path; note-on/off ticks compared with exact rational arithmetic (either neighbour on ties), release-before-strike per track; plus explicit-state accounting of the real midix writer (state = writer pending + per-track pending delays via hook, clock invariant in every state).",
+   text="All histories up to length 3 (thorough: 4-5 on sub-alphabets) over {chord, chord, rest} x 29 duration lists incl. non-unit numerators, denominators not dividing 960, exact half-tick ties, 1/2000, 69 and 70 000 beats and several fractions per instance, on 1 and 3 tracks, in-process and through the binary; plus long documents: periodic pieces of 130 and 300 (thorough: 1100) instances with exactly one deviation (key change, key repeated, tempo, meter, dynamic, text, 700-beat rest, 1/64 value, other symbol / degree / bass, two values, chord<->rest) at every position (130) or every counting boundary 63..257 (300) on 1 and 3 tracks (clock past 2^14, 2^16 and 2^21 ticks); note-on/off ticks compared with exact rational arithmetic (either neighbour on ties), release-before-strike per track; plus explicit-state accounting of the real midix writer (observational: the file is decoded after every prefix + Close).",
    note="Trusted: math/big, ref/smf. Bounded: histories up to the stated lengths; the accounting search is depth-capped (values grow without bound).",
    technique="bounded-exhaustive history enumeration + explicit-state search with a clock invariant on the real writer",
    ref="DESIGN.md §4 C02"),
@@ -20,22 +20,22 @@ CHECKS = {
    technique="bounded-exhaustive string enumeration + explicit-state search of the grammar x lexer-mode graph with every model edge replayed on the implementation",
    ref="DESIGN.md §4 C04"),
  "C06": dict(
-   text="All histories up to length 3/4 over 7 instance shapes x every track count 1..32 (one length more for N in {1,2,3,4,7}) through the real write path, in-process and through the binary: merged (tick,event) multiset equal to that of --track 1, every end-of-track at the exact total, N chunks; explicit-state accounting of the real writer with Close (every track stands at the total after Close).",
+   text="All histories up to length 4 over 7 instance shapes x every track count 1..32 (length 5 for N in {1,2,3,4,7}) through the real write path, in-process and through the binary; plus long documents: periodic pieces of 130 and 300 (thorough: 1100) instances with exactly one deviation (key change, key repeated, tempo, meter, dynamic, text, 700-beat rest, 1/64 value, other symbol / degree / bass, two values, chord<->rest) at every position (130) or every counting boundary 63..257 (300) x N in {2,3,16}: merged (tick,event) multiset equal to that of --track 1, every end-of-track at the exact total, N chunks; explicit-state accounting of the real writer with Close for N = 1..4 (every track stands at the total after Close); --track 0/-1 refused.",
    note="Trusted: ref/smf, ref/timing. Bounded by history length and N <= 32; accounting depth-capped.",
    technique="bounded-exhaustive history x configuration enumeration with a metamorphic oracle + explicit-state search with a clock invariant",
    ref="DESIGN.md §4 C06"),
  "C07": dict(
-   text="Deviation-bounded choice-tree search over settings histories (kind chord/rest free; each present setting of bpm, meter, key, velocity, txt, lic, mrk is one deviation; length <= 3 with <= 3/4 deviations, length <= 4 with <= 2/3), value sweeps of every setting over its domain at instance 0 and after a rest, 16 flag subsets x 256 two-instance documents (binary and in-process), and an explicit-state search of the real midiArgs cells to fixpoint (243 value-class states x 64 operations, calls emitted into a recording writer compared on every edge).",
+   text="Deviation-bounded choice-tree search over settings histories (kind chord/rest free; each present setting of bpm, meter, key, velocity, txt, lic, mrk is one deviation; length <= 3 with <= 3/4 deviations, length <= 4 with <= 2/3, also with repeated values), value sweeps of every setting at instance 0 and after a rest, in-process, through the binary and as flags (34 tempos across the byte/16/24/32/63/64-bit boundaries, 28 meters incl. those a MIDI file cannot state - these must be refused -, 28 keys, 6 dynamics, 17 texts incl. 127/128/16383/16384-byte ones), 16 flag subsets x 256 two-instance documents and rest-first documents, YAML spellings (aliases, flow style), long documents: periodic pieces of 130 and 300 (thorough: 1100) instances with exactly one deviation (key change, key repeated, tempo, meter, dynamic, text, 700-beat rest, 1/64 value, other symbol / degree / bass, two values, chord<->rest) at every position (130) or every counting boundary 63..257 (300), and an explicit-state search of the real midiArgs cells to fixpoint (243 value-class states x 64 operations, emitted calls compared as multisets on every edge).",
    note="Trusted: ref/play, ref/theory, ref/smf; velocities are learned from the run (order, not numbers, is prescribed). Unbounded only for the midiArgs graph under its stated abstraction.",
    technique="deviation-bounded stateless search + explicit-state BFS to fixpoint on the real settings machine vs. reference model",
    ref="DESIGN.md §4 C07"),
  "C08": dict(
-   text="Every file produced for all histories up to length 2/3 over 13 instance shapes (incl. out-of-range degrees, bass doubling a tone, long text) x track counts up to 256, every --program 0..255, instrument names around the VLQ boundary, through the binary and in-process, parsed by a strict SMF reader written from the specification that shares no code with the writer; format/ntrks/one-EOT-last/balanced notes/control events in track 0.",
+   text="Every file produced for all histories up to length 2/3 over 15 instance shapes (incl. out-of-range degrees, bass doubling a tone, lowest pitch, 200-byte text, extreme tempo/meter) x track counts up to 256 (and 1000), every --program 0..255, instrument names around the VLQ boundary, over-long durations around 2^28 ticks, long documents: periodic pieces of 130 and 300 (thorough: 1100) instances with exactly one deviation (key change, key repeated, tempo, meter, dynamic, text, 700-beat rest, 1/64 value, other symbol / degree / bass, two values, chord<->rest) at every position (130) or every counting boundary 63..257 (300) x N in {1,3}, through the binary and in-process, parsed by a strict SMF reader written from the specification that shares no code with the writer; format/ntrks/one-EOT-last/balanced notes/control events in track 0.",
    note="Trusted: ref/smf. Bounded by the stated alphabets; N >= 65536 excluded.",
    technique="bounded-exhaustive enumeration of documents x configurations on the real code vs. a strict independent SMF decoder",
    ref="DESIGN.md §4 C08"),
  "C12": dict(
-   text="The two real sources of nondeterminism are put under the explorer's control, on code rewritten from the working tree at check time (go build -overlay, nothing committed): (1) every map-iteration site is driven, per command-input and per site it reaches, through all rotations of the sorted and of the reversed key order (a family that puts every key first and every pair in both orders; pairs of sites in thorough), each vector one run of the rewritten binary compared byte-for-byte with the default order and with the plain binary; (2) the goroutine+channel iterator behind AST classification runs under a cooperative scheduler: all interleavings for trees of <= 2 chords (224 808 schedules each), preemption-bounded for 8- and 40-chord trees, outcome vs. a sequential reference walk, deadlock and panic detection; (3) the finite product of I/O paths {stdin, -, FILE} x {stdout, -o} x --debug; supplementary free-running repetition under GOMAXPROCS 1/2/16 and a -race pass (thorough).",
+   text="The real sources of nondeterminism are put under the explorer's control, on code rewritten from the working tree at check time (go build -overlay, nothing committed): (1) every map-iteration site is driven, per command-input and per site it reaches, through all rotations of the sorted and of the reversed key order (a family that puts every key first and every pair in both orders; pairs of sites in thorough), each vector one run of the rewritten binary compared byte-for-byte with the default order and with the plain binary; (2) goroutines, channels, select, mutexes, wait groups and Once run under a cooperative scheduler: the AST classifier against a sequential reference walk (all interleavings for trees of <= 2 chords, 224 808 schedules each; preemption-bounded for 8- and 40-chord trees), the whole `text conv` path from inside package main (<= 5 preemptions quick, all interleavings thorough on 2-chord texts; bounded on 3..600-chord texts), and every other command line (35: write, write event/parse/conv, info *, gen, user dictionaries) executed through cobra under the scheduler with preemption bound 2/3 - every schedule must give the bytes and verdict of the default schedule, no deadlock, no panic; (3) the finite product of I/O paths {stdin, -, FILE, stdin in pieces, FIFO, /dev/stdin} x {stdout, -o new, -o existing} x --debug; supplementary free-running repetition under GOMAXPROCS 1/2/16, other environments, a re-run two seconds later and a -race pass (thorough).",
    note="Scheduling points are the synchronisation operations; real memory-ordering effects are outside (supplementary -race pass only). A construct the scheduler does not model (select, atomics, timers) yields no verdict for that part (exhaustive:false), never a guess.",
    technique="stateless model checking of the real goroutine code under a controlled scheduler (preemption-bounded DFS) + exhaustive enumeration of controlled map-iteration orders and I/O configurations",
    ref="DESIGN.md §4 C12"),
@@ -65,7 +65,7 @@ CHECKS = {
    technique="exhaustive enumeration of value spaces through the real print/parse pair + bounded-exhaustive pipeline histories vs. reference model",
    ref="DESIGN.md §4 C10"),
  "C11": dict(
-   text="Deviation-bounded choice-tree search over spelling variants of every accepted token sequence of chords.y up to 9/12 tokens in both notations: every inter-token gap (8 trivia choices), leading whitespace inside braces, optional `_`, leading zeros, ASCII vs Unicode accidentals; <= 2/3 deviations (full product for short sentences in thorough); text conv must print the same bytes and give the same verdict as for the canonical spelling, in-process and (1 deviation) through the binary.",
+   text="Deviation-bounded choice-tree search over spelling variants of every accepted token sequence of chords.y up to 9/12 tokens in both notations: every inter-token gap (8 trivia choices incl. compound comment+newline trivia), leading whitespace inside braces, optional `_`, leading zeros, ASCII vs Unicode accidentals; <= 2/3 deviations (full product for short sentences in thorough); text conv must print the same bytes and give the same verdict as for the canonical spelling, in-process and (1 deviation) through the binary; 11 look-alike accidental characters; Unicode-spelled keys and notes through all 9 doors a key or note can come through (text metadata, --key of four commands, key: in YAML, describe targets and roots).",
    note="Metamorphic; the documented tokeniser decides which variants are spellings of the same tokens.",
    technique="deviation-bounded stateless search over spelling choices with a metamorphic oracle",
    ref="DESIGN.md §4 C11"),
@@ -80,7 +80,7 @@ CHECKS = {
    technique="exhaustive enumeration of interval and notation spaces on the real code vs. reference model",
    ref="DESIGN.md §4 C15"),
  "C16": dict(
-   text="Built-ins complete (46 look-ups played and compared with the conventional table, name = display, 67 attribute names, generated = embedded = listed); all user dictionaries with n <= 2 (3 reduced in thorough) chords over the option product name {fresh, unnamed} x extends {none, built-in by name/display, every user chord incl. itself, dangling} x attributes {none, built-in, user, dangling} x attribute file {absent, fresh, unnamed} x file order, in-process and (every cycle + a regular sample) through the real binary.",
+   text="Built-ins complete (46 look-ups played and compared with the conventional table, every ordered pair as [A B A], name = display, 67 attribute names, generated = embedded = listed); all user dictionaries with n <= 2 (3 reduced in thorough) chords over the option product name {fresh, unnamed} x extends {none, built-in by name/display, every user chord incl. itself, dangling} x attributes {none, built-in, user, dangling} x attribute file {absent, fresh, unnamed} x file order x {one file, split files} x shadowed display names, in-process and (every cycle + a regular sample) through the real binary.",
    note="Trusted: ref/dict. Overriding entries excluded (the statement does not fix which definition wins).",
    technique="exhaustive small-scope enumeration of dictionaries on the real loader vs. reference loader",
    ref="DESIGN.md §4 C16"),
